@@ -1,6 +1,7 @@
 package mon
 
 import (
+	"runtime"
 	"fmt"
 	"strings"
 
@@ -37,7 +38,7 @@ func annRecord(e error) obs.Rec {
 }
 
 // rewriteArch makes every errno payload look as if sent from another platform.
-func rewriteArch(enc *errorspb.EncodedError) (n int) {
+func rewriteArch(enc *errorspb.EncodedError, arch string, shift int64) (n int) {
 	sim.VisitDetails(enc, func(d *errorspb.EncodedErrorDetails, _ bool) {
 		if d.FullDetails == nil || !strings.HasSuffix(d.FullDetails.TypeUrl, "/cockroach.errorspb.ErrnoPayload") {
 			return
@@ -46,7 +47,8 @@ func rewriteArch(enc *errorspb.EncodedError) (n int) {
 		if err := proto.Unmarshal(d.FullDetails.Value, &p); err != nil {
 			return
 		}
-		p.Arch = "plan9:mips"
+		p.Arch = arch
+		p.OrigErrno += shift // the same error has another number in the sender's table
 		if a, err := types.MarshalAny(&p); err == nil {
 			d.FullDetails = a
 			n++
@@ -118,12 +120,26 @@ func runC11(c *core.Ctx) {
 	if t.HasKind("errno") {
 		c.Count("foreign-errno-histories", 1)
 		core.Try(func() {
+			// the sender: another OS, the same OS on another CPU architecture, something unheard of;
+			// with the same or with another number for the same error
+			archs := []string{"plan9:mips", runtime.GOOS + ":mips64", runtime.GOOS + ":" + runtime.GOARCH + "be", "windows:" + runtime.GOARCH, "OTHER"}
+			arch, shift := archs[c.Case%len(archs)], int64(c.Case/len(archs)%2)*1000
+			c.Cover("foreign-errno-sender", fmt.Sprintf("%s/number-shift=%d", strings.Replace(arch, runtime.GOOS, "sameOS", 1), shift))
 			enc := errors.EncodeError(sim.Ctx, e)
-			if rewriteArch(&enc) == 0 {
+			if rewriteArch(&enc, arch, shift) == 0 {
 				return
 			}
 			first := sim.DecBytes(sim.Marshal(enc))
 			b0 := annRecord(first)
+			// what the sender determined (text, predicates, accessor results) holds at the first receiver
+			if first.Error() != e.Error() {
+				c.Violate("foreign-errno/text", "the text of an error containing an errno from another platform changed at the first receiver", fmt.Sprintf("%s\nsender %s shift %d\n before: %q\n after:  %q", t, arch, shift, e.Error(), first.Error()))
+			}
+			for _, k := range []string{"os", "hints", "details", "links", "keys", "domain", "tags", "flags", "http", "grpc"} {
+				if before[k] != b0[k] {
+					c.Violate("foreign-errno/first/"+k, "an annotation of an error containing an errno from another platform changed at the first receiver", fmt.Sprintf("%s\nsender %s shift %d, field %s:\n before: %s\n after:  %s", t, arch, shift, k, before[k], b0[k]))
+				}
+			}
 			cur := first
 			for k := 2; k <= hops+1; k++ {
 				cur, _ = sim.Hop(cur)
